@@ -588,8 +588,12 @@ VARIANTS = [
             "            source_set=tuple(false_bindings),\n"
             "            where=state.node,\n"
             "        )\n"},
-    {"name": "not-generic-bool-shortcut-ignores-definite-bindings", "rule": "R1.51",
+    {"name": "not-falsy-class-is-complement-of-truthy", "rule": "R1.51",
      "file": VM, "expect": "fire",
+     "old": "        b for b in var.bindings if compare.compatible_with(b.data, False)\n",
+     "new": "        b for b in var.bindings if not compare.compatible_with(b.data, True)\n"},
+    {"name": "twin-not-wider-generic-bool-shortcut", "rule": "R1.51",
+     "file": VM, "expect": "silent",   # less precise ({T|F} -> bool), still sound
      "old": "    if len(true_bindings) == len(false_bindings) == len(var.bindings):\n",
      "new": "    if len(true_bindings) == len(false_bindings):\n"},
     {"name": "not-polarity-not-flipped", "rule": "R1.51", "file": VM, "expect": "fire",
